@@ -1,5 +1,6 @@
 import Driver.Proto
 import ScrapliModel.Lemmas.PrivSession
+import ScrapliModel.PrivFault
 namespace Driver.C04
 namespace C04
 open Scrapli Scrapli.Priv
@@ -13,6 +14,10 @@ open Scrapli Scrapli.Priv
   ops: joined by `,` (`.` = none): `cmd:<hex>`, `cmds:<list>`, `cfgs:<list>:<priv>`,
   `cfg:<hex>:<priv>`, `acq:<hex>`, `int:<list>:<priv>`; list = items joined by `+`, `_` = empty
 answer: `<dom> <model errs> <model modes> <model log> <spec errs> <spec modes> <spec log> <model caches>`
+
+`fsess <levels> <default> <secret> <start> <ordseed> <ops> <faultTick> <resetBefore>` — a session in
+which the navigation step issued in loop iteration `faultTick` fails after the device moved →
+`<dom> <model errs> <model modes> <model log> <model caches>`
 
 `path <levels> <cur> <tgt> <ordseed>` → `<dom> <model path> <spec path>`
 `proc <levels> <cache> <tgt> <mode> <ordseed>` → `<dom> <action> <next> <cache'>`
@@ -114,6 +119,15 @@ def specRun (c : Cfg) : Bytes → Bytes → List Op → List String × List Stri
       let (es, ms, lg) := specRun c lvl lvl ops
       (errName (opErr op) :: es, toHex lvl :: ms, entries ++ lg)
 
+/-- the fault-aware model, operation by operation -/
+def modelRunF (c : Cfg) (rb : Bool) (faults : Nat → Bool) :
+    Sess → List Op → List String × List String × List String × Sess
+  | s, [] => ([], [], [], s)
+  | s, op :: ops =>
+    let (e, s1) := runOpF c rb faults s op
+    let (es, ms, cs, s2) := modelRunF c rb faults s1 ops
+    (errName e :: es, toHex s1.dev.mode :: ms, toHex s1.cache :: cs, s2)
+
 def showPath : Option (List Bytes) → String
   | none => "none"
   | some p => if p.isEmpty then "_" else "+".intercalate (p.map toHex)
@@ -134,6 +148,17 @@ def handleC04 : List String → String
       let (ses, sms, slog) := specRun c start [] ops
       s!"{b2s dom} {showList mes} {showList mms} {showLog s1.dev.log} {showList ses} {showList sms} {showLog slog} {showList mcs}"
     | _, _, _, _, _, _ => "bad-op"
+  | ["fsess", lv, dflt, sec, start, seed, ops, ftick, rb] =>
+    match parseLevels lv, fromHex dflt, fromHex sec, fromHex start, seed.toNat?, parseOps ops, ftick.toNat? with
+    | some rs, some dflt, some sec, some start, some seed, some ops, some ftick =>
+      let c := mkCfg rs dflt sec seed
+      let payloadOK := ops.all fun op => (opLines op).all fun l => l.isEmpty || isPayload c.L l
+      let dom := isTree c.L && recognises c && allUnamb c && cmdsOK c.L && asksOK c &&
+        (names c.L).contains dflt && (names c.L).contains start && payloadOK
+      let s0 : Sess := { dev := { mode := start, awaiting := none, log := [] }, cache := [], tick := 0 }
+      let (mes, mms, mcs, s1) := modelRunF c (s2b rb) (fun t => t == ftick) s0 ops
+      s!"{b2s dom} {showList mes} {showList mms} {showLog s1.dev.log} {showList mcs}"
+    | _, _, _, _, _, _, _ => "bad-op"
   | ["path", lv, cur, tgt, seed] =>
     match parseLevels lv, fromHex cur, fromHex tgt, seed.toNat? with
     | some rs, some cur, some tgt, some seed =>
